@@ -54,8 +54,10 @@ vars == <<c, txt>>
 (* identifier characters (shell convention, so $HOSTx is not $HOST).       *)
 (***************************************************************************)
 DocVars == {"HOST", "GRAFANA_NET_ADDR", "GRAFANA_NET_API_KEY", "GRAFANA_NET_USER_ID"}
-PunctToks == {".", ")", " ", "-", "/", "^", "(", "\\"}
-IsIdent(t) == t \notin ({"$", "{", "}"} \cup PunctToks)
+PunctToks == {".", ")", " ", "-", "/", "^", "("}
+IdentToks == DocVars \cup {"1", "x", "HOSTNAME", "servers", "collectd", "servers_new"}
+IsIdent(t) == t \in IdentToks
+ASSUME Alphabet \subseteq ({"$", "{", "}"} \cup PunctToks \cup IdentToks)    \* every token has a known class
 
 RECURSIVE RunEnd(_, _)      \* first index >= i that is not an identifier token
 RunEnd(t, i) == IF i <= Len(t) /\ IsIdent(t[i]) THEN RunEnd(t, i + 1) ELSE i
@@ -228,7 +230,7 @@ RewOld(cc) == IF cc.v1 = "re" THEN "/old_([a-z]+)/" ELSE "old_lit"
 RewMax(cc) == IF cc.v3 = "all" THEN -1 ELSE 3
 RewNot(cc) == IF ~Has(cc, "r", "not") THEN ""            \* docs/rewriting.md: not = '' in every example
               ELSE IF K(cc, "r", "not") = 1 THEN "not_lit" ELSE "/not_[0-9]+/"
-AggRegex == "^aggre\\.(\\w+)\\.in"
+AggRegex == "^aggre\\.(\\w+)\\.in$"      \* ends in the anchor: a "$" that is not a reference
 AggInterval == 7200
 AggWait == 10800
 
